@@ -5,6 +5,7 @@ import (
 	"go/ast"
 	"go/token"
 	"go/types"
+	"golang.org/x/tools/go/packages"
 	"sort"
 	"strings"
 )
@@ -548,16 +549,9 @@ func ruleC05Dead(p *Program, r *Run, handledBin, producedBin map[string]string) 
 	}
 	// (6) data sources and statements
 	ds := p.MustFunc(pql, "dataSourceSQL")
-	handledDS := map[string]bool{}
-	for _, ts := range findTypeSwitches(info, ds.Body, nil) {
-		for _, tl := range ts.Types {
-			for _, t := range tl {
-				if t != nil {
-					handledDS[TypeStr(t)] = true
-				}
-			}
-		}
-	}
+	// a kind is handled when some path on which the source is known to be of that kind ends without an error
+	// (whatever the dispatch looks like: type switch, comma-ok assertion, helper)
+	handledDS := p.kindsHandled(pql, ds, "parser.TabularDataSource")
 	for _, t := range p.Implementers(p.Iface(p.Parser, "TabularDataSource")) {
 		r.Check(handledDS[TypeStr(t)], "C05/dead", "pql.dataSourceSQL handles "+TypeStr(t), p.Pos(ds.Pos()), "has a case", TypeStr(t)+" is a data source without a case")
 	}
@@ -763,4 +757,46 @@ func ruleC01Builtins(p *Program, r *Run) {
 	}
 	r.Check(okGeneric && overArgs, "C01/builtins", "pql.writeExpression generic call", p.Pos(we.Pos()), "name ( arg , arg ... ) over x.Args in order", fmt.Sprintf("a function that is not a built-in is written as `%s` (ranging over x.Args: %v); documented: passed through by name with all its arguments in order", got, overArgs))
 	r.Floor("C01/builtins", 12)
+}
+
+// coverClient records, for the returns of a function that do not fail, which dynamic types its interface-typed
+// parameter is known to have there.
+type coverClient struct {
+	BaseClient
+	InlinePure
+	param   types.Object
+	handled map[string]bool
+}
+
+func (c *coverClient) Return(e *Engine, st *State, ret *ast.ReturnStmt) {
+	if e.Lit != nil {
+		return
+	}
+	if ret != nil && len(ret.Results) > 0 {
+		last := ret.Results[len(ret.Results)-1]
+		if TypeStr(e.Info.TypeOf(last)) == "error" && knownNonNilError(e, st, last) {
+			return
+		}
+	}
+	if f := st.Get(e.objKey(c.param)); f != nil {
+		for _, t := range f.TyIn {
+			c.handled[t] = true
+		}
+	}
+}
+
+// kindsHandled: the dynamic types of fd's parameter of (interface) type typ for which fd has a non-failing path.
+func (p *Program) kindsHandled(pkg *packages.Package, fd *ast.FuncDecl, typ string) map[string]bool {
+	c := &coverClient{handled: map[string]bool{}}
+	for _, f := range fd.Type.Params.List {
+		if TypeStr(p.Info.TypeOf(f.Type)) == typ && len(f.Names) == 1 {
+			c.param = p.Info.Defs[f.Names[0]]
+		}
+	}
+	if c.param == nil {
+		return c.handled
+	}
+	e := NewEngine(p, pkg, fd, c)
+	e.Run(nil)
+	return c.handled
 }
